@@ -17,3 +17,8 @@ func (e *Explore) VerifSetRetryInterval(d time.Duration) { e.retryInterval = d }
 func (e *Explore) VerifSetProbe(f func(log logrus.FieldLogger, scrapeInfo *scrape.JobInfo, url string) (*scrape.StatisticsSeriesResult, error)) {
 	e.explore = f
 }
+
+// VerifDefaultProbe returns the probe function that New installs (unexported). Only with the "verif" build tag.
+func VerifDefaultProbe() func(log logrus.FieldLogger, scrapeInfo *scrape.JobInfo, url string) (*scrape.StatisticsSeriesResult, error) {
+	return explore
+}
